@@ -64,6 +64,11 @@ func genConcOps(rc *RunCtx, nKeys, nOps int, withOdd bool) []*Op {
 		kind := ch.Pick(10, 0)
 		cl := "client1"
 		byKey := func() bool { return ch.Pick(3, 0) == 2 }
+		pad := func(e *Entry) {
+			if e.Acct >= 0 && ch.Pick(8, 0) == 7 {
+				e.ByKey, e.KeyPad = false, 1+ch.Pick(2, 0) // public key followed by junk bytes: resolves to the same account
+			}
+		}
 		switch {
 		case kind <= 3: // single attestation
 			src := uint64(ch.Pick(4, 0))
@@ -71,6 +76,7 @@ func genConcOps(rc *RunCtx, nKeys, nOps int, withOdd bool) []*Op {
 			e := AttEntry(ch.Pick(nKeys, 0), src, tgt, uniq)
 			uniq++
 			e.ByKey = byKey()
+			pad(&e)
 			return &Op{Kind: "att", Client: cl, Entries: []Entry{e}}
 		case kind <= 6: // batch attestation over distinct keys in drawn order
 			n := 1 + ch.Pick(min(nKeys, 4), 0)
@@ -92,6 +98,7 @@ func genConcOps(rc *RunCtx, nKeys, nOps int, withOdd bool) []*Op {
 				e := AttEntry(perm[i], src, tgt, uniq)
 				uniq++
 				e.ByKey = byKey()
+				pad(&e)
 				o.Entries = append(o.Entries, e)
 			}
 			return o
@@ -116,6 +123,7 @@ func genConcOps(rc *RunCtx, nKeys, nOps int, withOdd bool) []*Op {
 			e := PropEntry(ch.Pick(nKeys, 0), uint64(ch.Pick(5, 0)), uniq)
 			uniq++
 			e.ByKey = byKey()
+			pad(&e)
 			return &Op{Kind: "prop", Client: cl, Entries: []Entry{e}}
 		default:
 			if !withOdd {
